@@ -21,7 +21,7 @@ type BodyCase struct {
 	Var  string `json:"var"`
 }
 
-const bodyRule = "bodies: 16 body templates (attributes of the wrong type for the spec, required/validated attributes, dynamic blocks whose for_each / labels / iterator / content use the marked variable, incl. invalid for_each types, null and marked labels) x marked variable in {sa, one, ls, mn, o, bt} x 10 hcldec specs (typed attributes that force failing conversions, BlockMap/BlockObject labels, BlockAttrs, Validate/Refine wrappers); dynblock.Expand + hcldec.Decode"
+const bodyRule = "bodies: 22 body templates (attributes of the wrong type for the spec, required/validated attributes, dynamic blocks whose for_each / labels / iterator / content use the marked variable, incl. invalid for_each types, null and marked labels) x marked variable in {sa, one, ls, mn, o, bt, sn, ss, ln} x 10 hcldec specs (typed attributes that force failing conversions, BlockMap/BlockObject labels, BlockAttrs, Validate/Refine wrappers); dynblock.Expand + hcldec.Decode"
 
 func typed(t cty.Type) hcldec.Spec { return &hcldec.AttrSpec{Name: "a", Type: t, Required: true} }
 
@@ -61,10 +61,17 @@ var templates = []tmpl{
 	{text: "dynamic \"b\" {\n  for_each = X\n  labels = [b.value]\n  content {\n    a = b.value\n  }\n}\n", labels: true},
 	{text: "dynamic \"b\" {\n  for_each = X\n  labels = [b.value, b.value]\n  content {\n    a = 1\n  }\n}\n", labels: true},
 	{text: "dynamic \"b\" {\n  for_each = [X, X]\n  labels = [b.value]\n  content {\n    a = b.value\n  }\n}\n", labels: true},
+	// the same for_each twice: duplicate labels / duplicate keys computed from the iterator
+	{text: "dynamic \"b\" {\n  for_each = X\n  labels = [b.key]\n  content {\n    a = 1\n  }\n}\ndynamic \"b\" {\n  for_each = X\n  labels = [b.key]\n  content {\n    a = 2\n  }\n}\n", labels: true},
+	{text: "dynamic \"b\" {\n  for_each = X\n  labels = [\"${b.value}\"]\n  content {\n    a = 1\n  }\n}\ndynamic \"b\" {\n  for_each = X\n  labels = [\"${b.value}\"]\n  content {\n    a = 2\n  }\n}\n", labels: true},
+	{text: "dynamic \"b\" {\n  for_each = X\n  content {\n    a = { for k in [b.key, b.key] : k => 1 }\n  }\n}\n"},
+	{text: "dynamic \"b\" {\n  for_each = X\n  content {\n    a = { for k in [b.value, b.value] : k => 1 }\n  }\n}\n"},
+	{text: "dynamic \"b\" {\n  for_each = X\n  content {\n    a = b.key + b.value\n  }\n}\n"},
+	{text: "dynamic \"b\" {\n  for_each = X\n  iterator = it\n  content {\n    a = it.key.nope\n  }\n}\n"},
 	{text: "dynamic \"b\" {\n  for_each = X\n  content {\n    dynamic \"b\" {\n      for_each = b.value\n      content {\n        a = b.value\n      }\n    }\n  }\n}\n"},
 }
 
-var bodyVars = []string{"sa", "one", "ls", "mn", "o", "bt"}
+var bodyVars = []string{"sa", "one", "ls", "mn", "o", "bt", "sn", "ss", "ln"}
 
 func genBodies(tier string, emit func(engine.Case) bool) {
 	var specNames []string
